@@ -406,6 +406,41 @@ def added_items(node):
     return out
 
 
+def _empty_scope_fallthrough(fh, i, p_scopes, p_default, p_cur):
+    """`let mut acc = if scopes.is_empty() { default.0.clone() } else { Origin::default() };` followed by the unconditional
+    inserts of the own block and the authorizer and by the loop over the scopes (zero iterations when there is no scope): the
+    empty case yields default + {current_block, usize::MAX} and nothing else iff every other addition sits in that loop."""
+    def peel(e):
+        e = strip(e)
+        while isinstance(e, dict) and e.get("k") == "field":
+            e = strip(e["e"])
+        return e
+    th, el = i["then"], i.get("else")
+    if el is None or added_items(th) or added_items(el):
+        return False
+    if not find_all(th, lambda z: z.get("k") == "mcall" and z.get("name") == "clone" and is_local(peel(z["recv"]), p_default)):
+        return False
+    if not (hirq.calls(el, r"Origin as std::default::Default>::default$|Origin::default$|Origin::new$")):
+        return False
+    stmts = list(fh["body"].get("stmts") or [])
+    at = [n for n, s_ in enumerate(stmts) if s_.get("k") == "let" and s_.get("init") is not None and find_all(s_["init"], lambda z: z is i)]
+    if len(at) != 1 or find_all({"k": "blk", "stmts": stmts[:at[0]]}, lambda z: z.get("k") == "ret"):
+        return False
+    plain = []
+    for s_ in stmts[at[0] + 1:]:
+        adds = added_items(s_)
+        if not adds:
+            continue
+        if not find_all(s_, lambda z: z.get("k") in ("loop", "if", "match", "closure")):
+            plain += adds
+            continue
+        loops = [m for m in find_all(s_, lambda z: z.get("k") == "match" and z.get("src") == "ForLoopDesugar")]
+        over_scopes = [m for m in loops if find_all(m.get("e") or m.get("scrut") or {}, lambda z: is_local(z, p_scopes))]
+        if not over_scopes or any(a for a in adds if a not in added_items(over_scopes[0])):
+            return False
+    return sorted(plain) in ([p_cur, "usize::MAX"], ["MAX", p_cur])
+
+
 def trust_rules(fb, ctx):
     # default trust = {authorizer, authority}
     db = fb.body(O + "::TrustedOrigins::default")
@@ -425,6 +460,8 @@ def trust_rules(fb, ctx):
         inserted = sorted(added_items(th))
         starts = bool(find_all(th, lambda z: z.get("k") == "mcall" and z.get("name") == "clone" and is_local(strip(z["recv"]), p_default)))
         ok = starts and inserted in ([p_cur, "usize::MAX"], ["MAX", p_cur]) and bool(find_all(th, lambda z: z.get("k") == "ret"))
+    if not ok and len(ifs) == 1 and not find_all(ifs[0]["then"], lambda z: z.get("k") == "ret"):
+        ok = _empty_scope_fallthrough(fh, ifs[0], p_scopes, p_default, p_cur)
     ctx.check(ok, "TRUST", "no scope: inherited default + own block + authorizer, nothing else", "TRUST|empty", "the empty-scope branch of from_scopes must return default_origins + {current_block, usize::MAX}", where)
     # explicit scopes
     sm = [m for m in hirq.matches_in(fh["body"]) if "Scope" in (m.get("sty") or "")]
